@@ -706,6 +706,40 @@ def sym_isinstance(obj, cls):
     return builtins.isinstance(obj, cls)
 
 
+class NumpyPassthrough(types.ModuleType):
+    """`np` stand-in for repository modules that call a few numpy scalar helpers on values that may
+    be symbolic: symbolic arguments use the symbolic definition, everything else is real numpy."""
+
+    def __init__(self):
+        super().__init__("symnp")
+        import numpy as real_np
+
+        self.__dict__["_np"] = real_np
+
+    def __getattr__(self, name):
+        real_np = self.__dict__["_np"]
+        sym = {
+            "deg2rad": lambda x: x * (_math.pi / 180.0),
+            "rad2deg": lambda x: x * (180.0 / _math.pi),
+            "radians": lambda x: x * (_math.pi / 180.0),
+            "sqrt": lambda x: sym_sqrt(x),
+            "cos": lambda x: apply_uf("cos", x),
+            "sin": lambda x: apply_uf("sin", x),
+            "abs": lambda x: abs(x),
+        }
+        real = getattr(real_np, name)
+        if name in sym:
+            def f(x, *a, **k):
+                if isinstance(x, (SymNum, SymBool)):
+                    return sym[name](x)
+                if isinstance(x, SymArray):
+                    return getattr(make_jnp_cached(), name)(x)
+                return real(x, *a, **k)
+
+            return f
+        return real
+
+
 _JAX = [None]
 _MATH = [None]
 
